@@ -178,6 +178,10 @@ class SFTPFile(BufferedFile):
 
     def _read(self, size):
         size = min(size, self.MAX_REQUEST_SIZE)
+        if self._wbuffer.tell():
+            # buffered writes come first: they move the file position, and
+            # the data may be just what is about to be read
+            self.flush()
         if self._prefetching:
             data = self._read_prefetch(size)
             if data is not None:
